@@ -54,3 +54,12 @@ CASES += [
       "        Ut1 = self._elemental_step_TimeIndep(t0, dens_dt, Nt)\n        #\n        # propagation to the end of the first interval\n        #\n        Udt = numpy.zeros(Ut1.shape, dtype=COMPLEX)\n        Udt[:,:,:,:] = Ut1[:,:,:,:]\n        for ti in range(2, self.dense_time.length):\n            Udt = numpy.tensordot(Ut1, Udt)\n        return Udt",
       "        Ue = self._elemental_step_TimeIndep(t0, dens_dt, Nt)\n        Uacc = numpy.zeros(Ue.shape, dtype=COMPLEX)\n        Uacc[:,:,:,:] = Ue[:,:,:,:]\n        for kk in range(2, self.dense_time.length):\n            Uacc = numpy.tensordot(Ue, Uacc)\n        return Uacc"),
 ]
+
+CASES += [
+    m("saved first step is a view of the running value", "C08-D",
+      "                if save:\n                    self.data[1,:,:,:,:] = self.Udt[:,:,:,:]\n                else:\n                    self.data[:,:,:,:] = self.Udt[:,:,:,:]\n",
+      "                if save:\n                    self.data[1,:,:,:,:] = self.Udt[:,:,:,:]\n                else:\n                    self._data = self.Udt\n"),
+    m("step taken from the running value instead of the one-step routine", "C08-D",
+      "                if save:\n                    self.data[1,:,:,:,:] = self.Udt[:,:,:,:]\n                else:\n                    self.data[:,:,:,:] = self.Udt[:,:,:,:]\n",
+      "                if save:\n                    self.data[1,:,:,:,:] = self.Udt[:,:,:,:]\n                else:\n                    self.data[:,:,:,:] = self.Udt[:,:,:,:]\n                    self.Udt = self.data\n"),
+]
